@@ -164,6 +164,13 @@ impl InflightManager {
                       && (o.inflight.f is None && f is Some ==> n.inflight.f is Some && n.inflight.f.unwrap().from@ == f.unwrap().b)
                       && (o.inflight.f is None && f is None ==> n.inflight.f is None) })), // @label later_caller_of_the_same_key_waits_on_that_keys_registration_only
 //@end
+// path canary (must FAIL): this path of enqueue is not vacuous
+//@region foyer-memory/src/inflight.rs :: impl~InflightManager<E, S, I> where E: Eviction, E::Key: Key/fn enqueue name=canary_enqueue_join_path whole=1 sub=@(?m)\.entry\(([^|]+), \|(\w+)\| (.+), \|(\w+)\| (.+)\)( \{)?$@.entry(\1, |verif_e: &InflightEntry| -> (r: bool) ensures verif_e.hash == \1 ==> r == (*key == verif_e.key) /* #label the_table_is_probed_by_key_equivalence_not_by_hash */ { let \2 = verif_e; \3 }, |verif_e: &InflightEntry| -> (r: u64) ensures r == verif_e.hash /* #label rehash_closure_returns_the_hash_the_element_was_stored_under */ { let \4 = verif_e; \5 })\6@ sub=@f\.map\(erase_required_fetch_builder\)@verif_erase(f)@
+//@head
+    pub fn canary_enqueue_join_path(&mut self, hash: u64, key: &KeyT, f: Option<BuilderT>) -> (r: Enqueue)
+        requires wf(old(self).inflights.v@, old(self).next_id), old(self).next_id < usize::MAX,
+        ensures forall|i: int| reg_at(old(self).inflights.v@, hash, *key, i) ==> final(self).next_id == 777,
+//@end
 
 // ---- take: removes the registration of exactly (hash, key) -- with an id, only if it is that leader's --, sets THAT
 // registration's close flag, returns all its waiters; anything else leaves the table and every flag alone
@@ -180,6 +187,13 @@ impl InflightManager {
                 r == Some(old(self).inflights.v@[i].inflight.notifiers)
                 && removed_at(final(self).inflights.v@, old(self).inflights.v@, i)
                 && final(verif_closed).stores@ == old(verif_closed).stores@.push((old(self).inflights.v@[i].inflight.close.cell@, true)), // @label take_removes_only_that_keys_registration_sets_its_close_flag_and_returns_all_its_waiters
+//@end
+// path canary (must FAIL): this path of take is not vacuous
+//@region foyer-memory/src/inflight.rs :: impl~InflightManager<E, S, I> where E: Eviction, E::Key: Key/fn take name=canary_take_removal_path whole=1 rules=option-map sub=@(?m)\.entry\(([^|]+), \|(\w+)\| (.+), \|(\w+)\| (.+)\)( \{)?$@.entry(\1, |verif_e: &InflightEntry| -> (r: bool) ensures verif_e.hash == \1 ==> r == (*key == verif_e.key) /* #label the_table_is_probed_by_key_equivalence_not_by_hash */ { let \2 = verif_e; \3 }, |verif_e: &InflightEntry| -> (r: u64) ensures r == verif_e.hash /* #label rehash_closure_returns_the_hash_the_element_was_stored_under */ { let \4 = verif_e; \5 })\6@ subopt=@(\w+)\.close\.store\(@verif_closed.store(&\1.close, @
+//@head
+    pub fn canary_take_removal_path(&mut self, hash: u64, key: &KeyT, id: Option<usize>, verif_closed: &mut ClosedLog) -> (r: Option<Vec<TxT>>)
+        requires wf(old(self).inflights.v@, old(self).next_id),
+        ensures forall|i: int| reg_at(old(self).inflights.v@, hash, *key, i) && (id is None || id == Some(old(self).inflights.v@[i].inflight.id)) ==> final(self).next_id == 777,
 //@end
 
 // ---- fetch_or_take: only the leader (by id) of exactly (hash, key) gets an answer: a donated fetch closure is handed
@@ -204,6 +218,20 @@ impl InflightManager {
                 (r matches Some(FetchOrTake::Notifiers(n)) && n == old(self).inflights.v@[i].inflight.notifiers)
                 && removed_at(final(self).inflights.v@, old(self).inflights.v@, i)
                 && final(verif_closed).stores@ == old(verif_closed).stores@.push((old(self).inflights.v@[i].inflight.close.cell@, true)), // @label without_a_donated_fetch_the_leader_takes_only_that_keys_registration_and_all_its_waiters
+//@end
+// path canary (must FAIL): this path of fetch_or_take is not vacuous
+//@region foyer-memory/src/inflight.rs :: impl~InflightManager<E, S, I> where E: Eviction, E::Key: Key/fn fetch_or_take name=canary_fetch_or_take_fetch_path whole=1 sub=@(?m)\.entry\(([^|]+), \|(\w+)\| (.+), \|(\w+)\| (.+)\)( \{)?$@.entry(\1, |verif_e: &InflightEntry| -> (r: bool) ensures verif_e.hash == \1 ==> r == (*key == verif_e.key) /* #label the_table_is_probed_by_key_equivalence_not_by_hash */ { let \2 = verif_e; \3 }, |verif_e: &InflightEntry| -> (r: u64) ensures r == verif_e.hash /* #label rehash_closure_returns_the_hash_the_element_was_stored_under */ { let \4 = verif_e; \5 })\6@ subopt=@(\w+)\.close\.store\(@verif_closed.store(&\1.close, @ sub=@f\.map\(unerase_required_fetch_builder\)@verif_unerase(f)@
+//@head
+    pub fn canary_fetch_or_take_fetch_path(&mut self, hash: u64, key: &KeyT, id: usize, verif_closed: &mut ClosedLog) -> (r: Option<FetchOrTake>)
+        requires wf(old(self).inflights.v@, old(self).next_id),
+        ensures forall|i: int| reg_at(old(self).inflights.v@, hash, *key, i) && id == old(self).inflights.v@[i].inflight.id && old(self).inflights.v@[i].inflight.f is Some ==> final(self).next_id == 777,
+//@end
+// path canary (must FAIL): this path of fetch_or_take is not vacuous
+//@region foyer-memory/src/inflight.rs :: impl~InflightManager<E, S, I> where E: Eviction, E::Key: Key/fn fetch_or_take name=canary_fetch_or_take_removal_path whole=1 sub=@(?m)\.entry\(([^|]+), \|(\w+)\| (.+), \|(\w+)\| (.+)\)( \{)?$@.entry(\1, |verif_e: &InflightEntry| -> (r: bool) ensures verif_e.hash == \1 ==> r == (*key == verif_e.key) /* #label the_table_is_probed_by_key_equivalence_not_by_hash */ { let \2 = verif_e; \3 }, |verif_e: &InflightEntry| -> (r: u64) ensures r == verif_e.hash /* #label rehash_closure_returns_the_hash_the_element_was_stored_under */ { let \4 = verif_e; \5 })\6@ subopt=@(\w+)\.close\.store\(@verif_closed.store(&\1.close, @ sub=@f\.map\(unerase_required_fetch_builder\)@verif_unerase(f)@
+//@head
+    pub fn canary_fetch_or_take_removal_path(&mut self, hash: u64, key: &KeyT, id: usize, verif_closed: &mut ClosedLog) -> (r: Option<FetchOrTake>)
+        requires wf(old(self).inflights.v@, old(self).next_id),
+        ensures forall|i: int| reg_at(old(self).inflights.v@, hash, *key, i) && id == old(self).inflights.v@[i].inflight.id && old(self).inflights.v@[i].inflight.f is None ==> final(self).next_id == 777,
 //@end
 
 }
